@@ -35,6 +35,8 @@ CHECKS = {
    text="n in {2,3} x failing subsets x {down at creation, crash, reset, crash+restart, handler error with 5 status codes} x thresholds x healthy replies before/after the fault, with the fault thread scheduled at every point between visible operations of the library within the deviation bound; back-off timers are fired to a horizon before the progress oracle; oracle: success iff the healthy replies satisfy the quorum function, Incomplete names each failing node exactly once with the handler's status or an unavailable-type error and consistent counts, the quorum function never sees a failed node, no call is left waiting for a node whose connection broke."),
  "C08": dict(cat="model_checking", ref="5.8", tech="stateless model checking with the context end as a free-running thread placed at every instant within the deviation bound; strict untimed progress oracle at quiescence (deadlock detection)",
    text="9 (12) call variants x node state {down, silent, window full, sender busy behind an earlier message with a never-ending context} x send buffer x {Canceled, DeadlineExceeded} x {already ended, ended at any instant}; at the quiescent state after the context ended - no timer fired, no handler returned - the call must have returned / its future or correctable be done, and any reported error must match the context's error under errors.Is. A stuck caller is a deadlock state of the explored system, found deterministically."),
+ "C09": dict(cat="model_checking", ref="5.9", tech="stateless model checking of workloads with free-running cancel / fault / timer threads, followed by a probe call; deadlock (wedge) detection at quiescence",
+   text="Workloads of one or two calls (correctable streams with 1..3 server replies and early / never / slow quorum functions, cancelled quorum calls, futures, correctables, RPCs, multicasts; concurrent and sequential) with cancel threads, an optional stream reset or crash+restart and a timer-firing thread, all placed by the explorer at every instant within the deviation bound; afterwards all back-off timers are fired and a probe RPC with a fresh context must be delivered and answered with its own stamped reply, with no library thread left blocked on a lock."),
 }
 
 NOT_YET = {}
